@@ -66,7 +66,7 @@ def program(case, spell):
         oid = i + 1
         props = ", ".join(([f"tag: {oid}"] if ob["tagged"] else []) + [f"{spell.get(p['n'], p['n'])}: {prop_src(oid, p['n'], p['kind'])}" for p in sorted(ob["own"], key=lambda p: p["n"])])
         if ob["rk"] != "obj":
-            lines.append(f"o{oid} := " + {"int": "5", "str": '"s"', "arr": "[1, 2]"}[ob["rk"]])
+            lines.append(f"o{oid} := " + {"int": "5", "str": '"s"', "arr": "[1, 2]", "nil": "nil"}[ob["rk"]])
         elif ob["how"] == "lit":
             lines.append(f"o{oid} := {{{props}}}")
         elif not props:
@@ -79,7 +79,7 @@ def program(case, spell):
                 # the same two objects expanded into the keyword arguments of a function call and of a method call
                 lines.append(f"{{|zq: 0| zq}}(**o{nz['a']}, **o{nz['b']}); {{zm: m{{|zq: 0| zq}}}}.zm(**o{nz['a']}, **o{nz['b']})")
     n = len(case["objs"])
-    BUILTIN_DEPTH = {"obj": 2, "int": 4, "str": 3, "arr": 3}
+    BUILTIN_DEPTH = {"obj": 2, "int": 4, "str": 3, "arr": 3, "nil": 3}
     for o in range(n):
         name = f"o{o + 1}"
         ob = case["objs"][o]
@@ -104,7 +104,7 @@ def program(case, spell):
                 lines.append(f"say(nil.try.{{|u| {src}}}.A)")
                 expect.append((f"{name} {form} {an}", "out:" + want))
         # names owned ABOVE the forest (by the built-in prototypes of the root): `which` walks the whole chain, through a root that is not an object too
-        rootprop, rootowner = {"obj": ("values", "Obj"), "int": ("prime?", "Int"), "str": ("uc", "Str"), "arr": ("join", "Arr")}[ob["root"]]
+        rootprop, rootowner = {"obj": ("values", "Obj"), "int": ("prime?", "Int"), "str": ("uc", "Str"), "arr": ("join", "Arr"), "nil": ("B", "Nil")}[ob["root"]]
         lines.append(f"say([{name}.which('keys)&._name, {name}.which('proto)&._name, {name}.which('{rootprop})&._name, {name}.which('nosuchname_zq)])")
         expect.append((f"{name} which-builtin", f'out:["Obj", "BaseObj", "{rootowner}", nil]'))
         own_public = sorted((["tag"] if ob["tagged"] else []) + [spell.get(p["n"], p["n"]) for p in case["objs"][o]["own"] if not p["n"].startswith("_")])
@@ -114,7 +114,8 @@ def program(case, spell):
         anc = case["anc"][o]
         tags = [case["objs"][a - 1]["efftag"] for a in anc]
         ptag = tags[0] if anc else 0
-        expect.append((f"{name} ancestors/proto", f"out:[[{', '.join(str(t) for t in tags if t)}], {len(anc) + BUILTIN_DEPTH[ob['root']]}, {ptag if ptag else 'nil'}]"))
+        nilroot = 1 if any(case["objs"][a - 1]["rk"] == "nil" for a in anc) else 0      # `ancestors` is built with A, a list chain: the value nil itself is squashed out of the list
+        expect.append((f"{name} ancestors/proto", f"out:[[{', '.join(str(t) for t in tags if t)}], {len(anc) + BUILTIN_DEPTH[ob['root']] - nilroot}, {ptag if ptag else 'nil'}]"))
         if ob["root"] == "obj":       # kindOf? goes through ==, which is not identity for descendants of non-object values
             lines.append("say([" + ", ".join(f"{name}.kindOf?(o{x + 1})" for x in range(n)) + f", {name}.kindOf?(Obj), {name}.kindOf?(BaseObj)])")
             expect.append((f"{name} kindOf?", "out:[" + ", ".join("true" if b else "false" for b in case["kind"][o]) + ", true, true]"))
